@@ -26,10 +26,26 @@ inline bool pre(Op op, const volatile void* a, size_t n, bool changes) {
 // separated from it, which is where racy late writes hide.
 inline void post_release(const volatile void* a) { sched_point(OP_POST, (const void*)a, false); }
 
+// --param optrace=1: print every atomic operation of a (replayed) run to stderr
+static int g_optrace = -1;
+static inline bool optrace() {
+  if (g_optrace < 0) g_optrace = usim_param_int("optrace", 0) ? 1 : 0;
+  return g_optrace == 1;
+}
+static void optrace_print(const char* op, const volatile void* a, unsigned long long v, unsigned long long v2) {
+  Thread* me = tl_self;
+  ++me->in_rt;
+  char site[300];
+  library_site(site, sizeof site);
+  fprintf(stderr, "  [T%d step %llu] %-6s %p = %llx (%llx)  %s\n", me->id, (unsigned long long)R.step, op, (void*)a, v, v2, site);
+  --me->in_rt;
+}
+
 template <class T>
 inline T do_load(const volatile T* a) {
   bool s = pre(OP_LOAD, a, sizeof(T), false);
   T v = __atomic_load_n(a, __ATOMIC_SEQ_CST);
+  if (s && optrace()) optrace_print("load", a, (unsigned long long)v, 0);
   if (s) spin_note_poll((const void*)a, (uint64_t)v);
   return v;
 }
@@ -37,12 +53,14 @@ template <class T>
 inline void do_store(volatile T* a, T v) {
   bool s = pre(OP_STORE, a, sizeof(T), true);
   __atomic_store_n(a, v, __ATOMIC_SEQ_CST);
+  if (s && optrace()) optrace_print("store", a, (unsigned long long)v, 0);
   if (s) { spin_note_progress(); note_write((const void*)a); post_release(a); }
 }
 template <class T, class F>
 inline T do_rmw(volatile T* a, F f) {
   bool s = pre(OP_RMW, a, sizeof(T), true);
   T old = f();
+  if (s && optrace()) optrace_print("rmw", a, (unsigned long long)old, (unsigned long long)__atomic_load_n(a, __ATOMIC_SEQ_CST));
   if (s) { spin_note_progress(); note_write((const void*)a); post_release(a); }
   return old;
 }
@@ -58,6 +76,7 @@ inline int do_cas(volatile T* a, T* c, T v, bool weak) {
     return 0;
   }
   int ok = __atomic_compare_exchange_n(a, c, v, false, __ATOMIC_SEQ_CST, __ATOMIC_SEQ_CST);
+  if (s && optrace()) optrace_print(ok ? "cas-ok" : "cas-no", a, (unsigned long long)*c, (unsigned long long)v);
   if (s) {
     if (ok) { spin_note_progress(); note_write((const void*)a); post_release(a); }
     else spin_note_poll((const void*)a, (uint64_t)*c);
